@@ -465,6 +465,12 @@ static int fd_ready(const struct em *m, int fd)
 	if (fd == EM_FD_SIGPAIR && m->nread[fd] && m->sigbytes > 0) r |= EM_READ;
 	return r;
 }
+int em_ready_fds(const struct em *m)
+{
+	int n = 0;
+	for (int fd = 0; fd < EM_NFD; fd++) if (fd_ready(m, fd)) n++;
+	return n;
+}
 /* what the backend wait reports: every registered event whose fd is ready, in
  * an order the backend chooses (one tie group) */
 static void dispatch_io(struct em *m)
